@@ -88,7 +88,7 @@ def forged_signature(obj, auto=True, args=(), kwargs={}):
     """
     subject = _util.get_introspectable(obj, af_hint=auto)
     forger = getattr(subject, '_sigtools__forger', None)
-    if forger is not None:
+    if callable(forger):
         ret = forger(obj=subject)
         if isinstance(ret, _util.funcsigs.Signature):
             # (objects that answer to any attribute name, such as mocks,
@@ -96,11 +96,11 @@ def forged_signature(obj, auto=True, args=(), kwargs={}):
             return _signatures.UpgradedSignature._upgrade_with_warning(ret)
     if auto:
         try:
-            subject._sigtools__autoforwards_hint
+            hint = subject._sigtools__autoforwards_hint
         except AttributeError:
-            pass
-        else:
-            h = subject._sigtools__autoforwards_hint(subject)
+            hint = None
+        if callable(hint):
+            h = hint(subject)
             if isinstance(h, tuple):
                 try:
                     ret = _autoforwards.autoforwards_ast(
